@@ -41,9 +41,9 @@ class _Override:
     def __init__(self, agent):
         self.ref = weakref.ref(agent)
 
-    def __call__(self, arg, tag=None):
+    def __call__(self, arg, tag=None, **extra):
         agent = self.ref()
-        return agent.model.world.callback(agent, arg, tag, via="instance")
+        return agent.model.world.callback(agent, arg, tag, via="instance", extra=extra)
 
 
 def classes():
@@ -67,16 +67,16 @@ def classes():
                 if isinstance(x, int) and x % 3 == 0:
                     self.act = _Override(self)
 
-            def act(self, arg, tag=None):
-                return self.model.world.callback(self, arg, tag, via="class")
+            def act(self, arg, tag=None, **extra):
+                return self.model.world.callback(self, arg, tag, via="class", extra=extra)
 
             @staticmethod
-            def ping(world, arg, tag=None):
-                world.named_calls.append(("ping", arg, tag))
+            def ping(world, arg, tag=None, **extra):
+                world.named_calls.append(("ping", arg, (tag, fmt_extra(extra))))
 
             @classmethod
-            def census(cls, world, arg, tag=None):
-                world.named_calls.append(("census", arg, tag, cls))
+            def census(cls, world, arg, tag=None, **extra):
+                world.named_calls.append(("census", arg, (tag, fmt_extra(extra)), cls))
                 return cls
 
         class T1(T0):
@@ -92,6 +92,18 @@ def classes():
 
         _CLASSES = (WModel, [T0, T1, T2, T3], AgentSet)
     return _CLASSES
+
+
+def fmt_extra(extra):
+    """the keyword arguments a callback received beyond `arg` and `tag`, canonical"""
+    return tuple(sorted(extra.items()))
+
+
+def extra_kw(arg, n):
+    """glue ("arguments are passed through unchanged"): further pass-through keyword arguments of an activation.  Their
+    names are the program's business - one is called `agent` (a trading partner, say), one `method`-like names are
+    reserved by do/shuffle_do/map themselves and are not used"""
+    return {"agent": arg + 11, "ref": arg + 13} if (arg // 3 + n) % 2 else {}
 
 
 def fmt_val(v):
@@ -193,10 +205,10 @@ class WorldImpl:
         self.held.pop(aid, None)
 
     # -- callbacks ------------------------------------------------------------------------
-    def callback(self, agent, arg, tag=None, via=None):
+    def callback(self, agent, arg, tag=None, via=None, extra=None):
         aid = agent.aid
         self.log.append((aid, arg))
-        self.trace.append(("invoke", aid, arg, tag))
+        self.trace.append(("invoke", aid, arg, tag, fmt_extra(extra or {})))
         if via == "class" and "act" in agent.__dict__:
             # the class-level method ran although this agent carries its own `act`: not `agent.act(...)`
             self.trace.append(("bypassed", aid))
@@ -391,6 +403,42 @@ class WorldImpl:
             s = self.AgentSet([o for b in map(int, w[2:]) if (o := self.deref(b)) is not None], random=self.models[m].random)
             self.sets.append((s, m))
             return self.ok(f"set={len(self.sets) - 1}")
+        if k == "copyset":
+            # the program takes a copy of a set (what the Model docstring tells users to do before changing the composition):
+            # `select()` without criteria / `copy.copy`; the copy is a program-made set from then on
+            try:
+                s, m = self.target(w[1])
+            except KeyError:
+                return "err Key"
+            if w[2] not in ("sel", "copy"):
+                return "bad-op"
+            import copy
+
+            c = s.select() if w[2] == "sel" else copy.copy(s)
+            assert c is not s and c.random is s.random
+            self.sets.append((c, m))
+            return self.ok(f"set={len(self.sets) - 1}")
+        if k in ("sadd", "sdiscard"):
+            # the program edits one of its own sets (outside any activation)
+            s, _m = self.sets[int(w[1])]
+            o = self.deref(int(w[2]))
+            if o is not None:
+                self.trace.append(("setedit", int(w[1]), k[1:], int(w[2])))
+                getattr(s, k[1:])(o)
+            del o
+            return self.ok()
+        if k == "items":
+            # the set read by position: every index, and the full slice
+            try:
+                s, m = self.target(w[1])
+            except KeyError:
+                return "err Key"
+            n = len(s)
+            idx = [s[i].aid for i in range(n)]
+            sl = [a.aid for a in s[:]]
+            last = s[-1].aid if n else None
+            self.trace.append(("items", w[1], idx, sl, last))
+            return self.ok("idx=" + ",".join(map(str, idx)) + " slice=" + ",".join(map(str, sl)))
         if k == "script":
             self.scripts[int(w[1])] = parse_script(w[2:])
             return "ok"
@@ -416,8 +464,12 @@ class WorldImpl:
         # with a second keyword argument `tag` = arg + 7 that the callback reports back
         form = (arg + len(before)) % 3
         pa, kw = ((arg,), {}) if form == 0 else ((), {"arg": arg, "tag": arg + 7}) if form == 1 else ((arg,), {"tag": arg + 7})
-        self.trace.append(("call", k, w[1], before, rem, arg, key, [self.info[a][1:3] for a in before], kw.get("tag")))
-        method = "act" if how == "str" else (lambda a, arg, tag=None: a.model.world.callback(a, arg, tag))
+        # ... and, one time in two, with further keyword arguments of the program's own choosing (one of them named `agent`)
+        xkw = extra_kw(arg, len(before))
+        kw = {**kw, **xkw}
+        self.trace.append(("call", k, w[1], before, rem, arg, key, [self.info[a][1:3] for a in before], kw.get("tag"),
+                           fmt_extra(xkw)))
+        method = "act" if how == "str" else (lambda a, arg, tag=None, **extra: a.model.world.callback(a, arg, tag, extra=extra))
         res = ""
         if how == "str" and k in ("do", "map") and (arg + len(before)) % 2:
             # the same activation with a staticmethod / classmethod name first: `agent.ping(...)` / `agent.census(...)`
@@ -436,7 +488,8 @@ class WorldImpl:
             ix = self.CLS.index  # (class objects do not travel between the worker processes: indices)
             self.trace.append(("named", "ping" if k == "do" else "census",
                                [c[:3] + ((ix(c[3]),) if len(c) > 3 else ()) for c in self.named_calls],
-                               [ix(c) for c in classes_], None if got is None else [ix(c) for c in got], err, arg, kw.get("tag")))
+                               [ix(c) for c in classes_], None if got is None else [ix(c) for c in got], err, arg,
+                               (kw.get("tag"), fmt_extra(xkw))))
             self.named_calls = []
             del classes_, got
         raised = False
@@ -539,6 +592,7 @@ def gen_world(R, flavor="c04", size=None):
         lines.append(l)
         return impl.line(l.split())
 
+    nm = 0
     try:
         nm = R.choice([1, 2, 2, 3]) if flavor == "c02" else R.choice([1, 1, 2])
         for _ in range(nm):
@@ -593,11 +647,12 @@ def gen_world(R, flavor="c04", size=None):
             k = R.random()
             na = len(impl.wr)
             if flavor == "c02":
-                wts = [("create", .26), ("remove", .22), ("removeall", .04), ("unhold", .04), ("reorder", .10),
-                       ("mkset", .03), ("script", .12), ("direct", .04), ("act", .15)]
+                wts = [("create", .22), ("remove", .20), ("removeall", .04), ("unhold", .03), ("reorder", .08),
+                       ("mkset", .02), ("script", .11), ("direct", .04), ("copyset", .04), ("items", .07), ("newmodel", .02),
+                       ("act", .13)]
             else:
                 wts = [("create", .12), ("remove", .06), ("removeall", .01), ("unhold", .05), ("reorder", .06),
-                       ("mkset", .08), ("script", .25), ("direct", .02), ("act", .35)]
+                       ("mkset", .08), ("script", .25), ("direct", .02), ("copyset", .02), ("items", .02), ("act", .31)]
             acc, op = 0.0, wts[-1][0]
             for name, p in wts:
                 acc += p
@@ -624,6 +679,35 @@ def gen_world(R, flavor="c04", size=None):
                 emit(f"unhold {an_agent()}")
             elif op == "reorder":
                 emit(f"shuffle {tgt()}" if R.random() < 0.6 else f"sort {tgt()} {R.choice(['asc', 'desc'])}")
+            elif op == "copyset":
+                # a copy of a registry set (or of any set), then - mostly - the copy is changed in place
+                emit(f"copyset {tgt()} {R.choice(['sel', 'copy'])}")
+                ks = len(impl.sets) - 1
+                if ks >= 0 and R.random() < 0.75:
+                    how = R.random()
+                    emit(f"shuffle set:{ks}" if how < 0.3 else f"sdiscard {ks} {an_agent()}" if how < 0.75 else f"sadd {ks} {an_agent()}")
+            elif op == "items":
+                # read by position; one time in two again after as many removals as creations (constant population)
+                t = tgt()
+                emit(f"items {t}")
+                if R.random() < 0.5:
+                    for _ in range(R.choice([1, 1, 2])):
+                        emit(f"remove {an_agent()}")
+                        emit(create_line())
+                    emit(f"items {t}")
+            elif op == "newmodel":
+                # another Model is constructed in mid-history - mostly at a moment when an existing one has just been
+                # emptied, which then goes on creating agents
+                if nm >= 5:
+                    continue
+                m = R.randrange(nm)
+                emptied = R.random() < 0.6
+                if emptied:
+                    emit(f"removeall {m}")
+                emit("model " + gen_script_rng(R))
+                nm += 1
+                if emptied:
+                    emit(f"create {m} {R.randrange(NTYPES)} {hold()} {R.randrange(-3, 9)}")
             elif op == "mkset":
                 ids = [an_agent() for _ in range(R.randrange(0, 7))]
                 emit(f"mkset {R.randrange(nm)} " + " ".join(map(str, ids)))
@@ -704,6 +788,10 @@ def _shuffle_reference(items, script):
     return l
 
 
+def _canon(v):
+    return tuple(_canon(e) for e in v) if isinstance(v, (list, tuple)) else v
+
+
 def split_ops(trace):
     """[(op line, [events…], state or None)]"""
     ops = []
@@ -780,6 +868,16 @@ def oracle_c02(sc, obs):
                     expect_t[m][ty].remove(aid)
                 else:
                     removed_again = True
+            elif ev[0] == "items":
+                # every view at once: reading by position (each index, the full slice, [-1]) shows exactly the members
+                _, tok, idx, sl, last = ev
+                t = tok.split(":")
+                want = expect[int(t[1])] if t[0] == "all" else expect_t[int(t[1])].get(int(t[2]), []) if t[0] == "type" else None
+                if want is None and st is not None and int(t[1]) < len(st["S"]):
+                    want = st["S"][int(t[1])]  # a program-made set: by position = by iteration
+                if want is not None and (list(idx) != want or list(sl) != want or last != (want[-1] if want else None)):
+                    bad.append(f"views: {tok} read by position is {list(idx)} (slice {list(sl)}, [-1] {last}), its members are {want} "
+                               f"after `{line}`")
             elif ev[0] == "removeall":
                 m = ev[1]
                 touched.add(m)
@@ -891,7 +989,8 @@ def oracle_c04(sc, obs):
             elif k == "unhold":
                 held.discard(ev[1])
             elif k == "call":
-                _, kind, tok, before, rem, arg, key, tyuid, tag = ev
+                _, kind, tok, before, rem, arg, key, tyuid, tag = ev[:9]
+                xkw = tuple(ev[9]) if len(ev) > 9 else ()
                 if kind == "shuffledo":
                     visit = _shuffle_reference(before, rem)
                 elif kind in ("gdo", "gmap"):
@@ -903,7 +1002,7 @@ def oracle_c04(sc, obs):
                     call_groups = groups
                 else:
                     visit = list(before)
-                call = {"kind": kind, "before": before, "visit": visit, "arg": arg, "tag": tag, "created": set(),
+                call = {"kind": kind, "before": before, "visit": visit, "arg": arg, "tag": tag, "created": set(), "extra": xkw,
                         "groups": call_groups if kind in ("gdo", "gmap") else None, "raised_by": None, "tok": tok,
                         "cur": list(before)}
                 if len(set(before)) != len(before):
@@ -922,7 +1021,11 @@ def oracle_c04(sc, obs):
                     elif how_ == "discard" and b in call["cur"]:
                         call["cur"].remove(b)
             elif k == "invoke" and call is not None:
-                _, aid, arg, tag = ev
+                _, aid, arg, tag = ev[:4]
+                got_extra = tuple(map(tuple, ev[4])) if len(ev) > 4 else ()
+                if got_extra != tuple(map(tuple, call["extra"])):
+                    bad.append(f"args: agent {aid} received the further keyword arguments {dict(got_extra)}, the call passed "
+                               f"{dict(call['extra'])}")
                 if call["raised_by"] is not None:
                     bad.append(f"after-raise: agent {aid} invoked by `{line}` after the callback of agent {call['raised_by']} raised")
                 if tag != call["tag"]:
@@ -956,7 +1059,7 @@ def oracle_c04(sc, obs):
                 if err:
                     bad.append(f"args: `{line}` by the {'staticmethod' if name == 'ping' else 'classmethod'} name `{name}` raised {err}: "
                                f"agent.{name}(*args) was not called with the arguments passed through unchanged")
-                elif len(calls) != want_n or any(c[1] != arg or c[2] != tag for c in calls):
+                elif len(calls) != want_n or any(c[1] != arg or _canon(c[2]) != _canon(tag) for c in calls):
                     bad.append(f"args: `{line}` by the name `{name}` made {len(calls)} calls {[(c[1], c[2]) for c in calls][:3]} "
                                f"for {want_n} members (argument {arg}, tag {tag})")
                 elif name == "census" and (got != classes_ or [c[3] for c in calls] != classes_):
